@@ -123,6 +123,7 @@ func c02cases(tier string) []c02case {
 			cs = append(cs, c02case{shape: "bnd", n: n, scen: "free", hist: c02hists[hi]})
 			cs = append(cs, c02case{shape: "subfork", n: n, scen: "free", hist: c02hists[hi]})
 			cs = append(cs, c02case{shape: "bndskip", n: n, scen: "free", hist: c02hists[hi]})
+			cs = append(cs, c02case{shape: "subnest", n: n, scen: "free", hist: c02hists[hi]})
 		}
 	}
 	// enforced schedules
@@ -268,6 +269,32 @@ func c02graph(shape string, n int) *eng.Graph {
 			e := g.Add("endEvent", fmt.Sprintf("e%d", i), "")
 			g.Connect(starts[i], u, nil)
 			g.Connect(u, e, nil)
+		}
+	case "subnest":
+		// sub-processes nested TWO levels, the outer one holding another live token when the inner one completes:
+		// s_i -> O_i[ os -> fork -> { A_i (task) | I_i[ is -> B_i (task) -> ie ] } -> oe ] -> e_i. The completion of the inner
+		// sub-process is the inner one's, not the outer one's: the outer one — and the instance — is over only when A_i has
+		// been answered too
+		for i := 0; i < n; i++ {
+			o := g.Add("subProcess", fmt.Sprintf("O%d", i), "")
+			os := g.Add("startEvent", fmt.Sprintf("os%d", i), o.ID)
+			f := g.Add("parallelGateway", fmt.Sprintf("F%d", i), o.ID)
+			a := g.Add("task", fmt.Sprintf("A%d", i), o.ID)
+			in := g.Add("subProcess", fmt.Sprintf("I%d", i), o.ID)
+			is := g.Add("startEvent", fmt.Sprintf("is%d", i), in.ID)
+			b := g.Add("task", fmt.Sprintf("B%d", i), in.ID)
+			ie := g.Add("endEvent", fmt.Sprintf("ie%d", i), in.ID)
+			oe := g.Add("endEvent", fmt.Sprintf("oe%d", i), o.ID)
+			g.Connect(os, f, nil)
+			g.Connect(f, a, nil)
+			g.Connect(f, in, nil)
+			g.Connect(is, b, nil)
+			g.Connect(b, ie, nil)
+			g.Connect(a, oe, nil)
+			g.Connect(in, oe, nil)
+			e := g.Add("endEvent", fmt.Sprintf("e%d", i), "")
+			g.Connect(starts[i], o, nil)
+			g.Connect(o, e, nil)
 		}
 	case "forkshort":
 		// a fork whose FIRST branch ends at once (straight to an end event) while the second waits at a task: the token
@@ -628,6 +655,23 @@ func c02run(out *rec.Out, c c02case, rng *rec.Rng, tier string, stats map[string
 			}
 			if len(normal) > 0 {
 				pick = normal[rng.Intn(len(normal))]
+			} else if !bndWaited {
+				bndWaited = true
+				r.group(c02wait{"pre", false, 1, "tiny"}, c02tiny).Wait()
+				in.Quiesce(q)
+			}
+		}
+		if c.shape == "subnest" {
+			// the tasks inside the INNER sub-processes first; once only the outer ones' own tasks are pending, one wait that
+			// must not succeed
+			var inner []*eng.Req
+			for _, x := range p {
+				if strings.HasPrefix(x.Node, "B") {
+					inner = append(inner, x)
+				}
+			}
+			if len(inner) > 0 {
+				pick = inner[rng.Intn(len(inner))]
 			} else if !bndWaited {
 				bndWaited = true
 				r.group(c02wait{"pre", false, 1, "tiny"}, c02tiny).Wait()
